@@ -93,3 +93,16 @@ class EntropySource:
     @property
     def total(self):
         return sum(n for n, _ in self.calls)
+
+
+class FalsyEntropySource(EntropySource):
+    """an entropy object that is callable but falsy (a lazily filled pool reporting len() == 0)"""
+
+    def __len__(self):
+        return 0
+
+
+def make_entropy(spec):
+    if spec and spec.get("falsy"):
+        return FalsyEntropySource(spec)
+    return EntropySource(spec)
